@@ -752,4 +752,143 @@ Proof.
     + apply neutral_intro; reflexivity.
 Qed.
 
+
+Lemma dsame_nsame s s' : dsame s s' -> nsame s s'.
+Proof.
+  intros ((K1 & K2 & K3 & K4 & K5 & K6 & K7 & K8 & K9 & K10 & K11 & K12 & K13) & C1 & C2 & C3).
+  unfold nsame. repeat split; assumption.
+Qed.
+
+Lemma Link_nsame q s s' : nsame s s' -> bundlers s' = bundlers s -> Link q s -> Link q s'.
+Proof.
+  intros (A1 & A2 & A3 & A5 & A6 & A7 & A8 & A9 & A10) A4. apply Link_ext. unfold lsame. repeat split; assumption.
+Qed.
+
+Lemma devonly_neutral o : forallb devonly o = true -> neutral o.
+Proof.
+  intros H. destruct (devonly_final_events _ H) as [F1 F2]. apply neutral_intro; try assumption.
+  - apply devdoc_no_raise, devonly_devdoc, H.
+  - apply devdoc_last_msg, devonly_devdoc, H.
+Qed.
+Lemma neutral_app a b : neutral a -> neutral b -> neutral (a ++ b).
+Proof.
+  intros (A1 & A2 & A3 & A4) (B1 & B2 & B3 & B4). apply neutral_intro.
+  - rewrite final_events_app, A1, B1. reflexivity.
+  - rewrite stops_app, A2, B2. reflexivity.
+  - rewrite no_raise_app, A3, B3. reflexivity.
+  - intros cur. rewrite last_msg_app, A4, B4. reflexivity.
+Qed.
+
+(* a cancelled task parks *)
+Lemma step_task_pause (s : st) os q :
+  Core q s os -> state s = Pausing -> (pc s = PcSleep0 /\ p_infl q = [] /\ RespsOK (S (List.length (p_fl q))) s \/
+                                       exists k m, pc s = PcCmd k /\ p_infl q = [m] /\ RespsOK (List.length (p_fl q)) s) ->
+  must_cancel s = true -> interrupted s = true ->
+  StepOK s os (task_step s).
+Proof.
+  intros (HP & HLk & HD) Hst Hcase Hmc Hit.
+  pose proof HLk as (L1 & L2 & L3 & L4 & L5 & L6 & L7 & L8 & L9 & L10).
+  destruct (task_pause P presume plan_of D dev Hdev s (p_c q ++ p_infl q)) as (s3 & o23 & E & S3 & Q3); try assumption.
+  { destruct Hcase as [(Hpc & _) | (k & m & Hpc & _)]; [left; exact Hpc | right; exists k; exact Hpc]. }
+  rewrite E. unfold StepOK. cbn [fst snd]. intros _.
+  apply Inv_neutral.
+  { cbn [app]. apply neutral_app; [apply devonly_neutral; exact Q3 | apply neutral_intro; reflexivity]. }
+  pose proof (dsame_nsame _ _ S3) as N3. destruct S3 as ((K1 & K2 & K3 & K4 & K5 & K6 & K7 & K8 & K9 & K10 & K11 & K12 & K13) & C1 & C2 & C3).
+  destruct Hcase as [(Hpc & Hin & (vs & Hrs & Hlen)) | (k & m & Hpc & Hin & (vs & Hrs & Hlen))]; rewrite Hpc in *; simp_st.
+  - eapply I_pd with (q := q); simp_st; try congruence.
+    + split; [exact HP|]. split; [|exact HD].
+      eapply Link_nsame; [| |exact HLk]; [unfold nsame in *; simp_st; decompose [and] N3; repeat split; congruence | simp_st; congruence].
+    + exists vs. split; [simp_st; congruence | exact Hlen].
+  - eapply I_pd with (q := q); simp_st; try congruence.
+    + split; [exact HP|]. split; [|exact HD].
+      eapply Link_nsame; [| |exact HLk]; [unfold nsame in *; simp_st; decompose [and] N3; repeat split; congruence | simp_st; congruence].
+    + exists (VNone :: vs). cbn [map List.length]. split; [simp_st; congruence | lia].
+Qed.
+
+(* the parked task is scheduled *)
+Lemma step_task_pd (s : st) os q :
+  Core q s os -> state s = Paused -> pc s = PcPaused -> must_cancel s = false ->
+  (interrupted s = true -> permit s = false) -> (interrupted s = false -> p_infl q = []) ->
+  RespsOK (S (List.length (p_fl q))) s ->
+  StepOK s os (task_step s).
+Proof.
+  intros (HP & HLk & HD) Hst Hpc Hmc Hip Hii (vs & Hrs & Hlen).
+  pose proof HLk as (L1 & L2 & L3 & L4 & L5 & L6 & L7 & L8 & L9 & L10).
+  unfold StepOK. destruct (permit s) eqn:Hpm.
+  - assert (Hi : interrupted s = false) by (destruct (interrupted s); [specialize (Hip eq_refl); discriminate | reflexivity]).
+    rewrite (task_unpark P presume plan_of D dev s Hpc Hmc Hpm Hst L6)
+      by (rewrite Hrs, L2, map_length, app_length, map_length; cbn; lia).
+    cbn [fst snd]. intros _. apply Inv_neutral; [apply neutral_intro; reflexivity|].
+    eapply I_rs with (q := q); simp_st; try congruence.
+    + split; [exact HP|]. split; [|exact HD]. eapply Link_nsame; [nsame_tac | reflexivity | exact HLk].
+    + apply Hii. exact Hi.
+    + exists vs. split; [simp_st; exact Hrs | exact Hlen].
+  - rewrite (task_step_inr s (s, [OBad 5])).
+    + cbn [fst snd]. intros _. apply Inv_neutral; [apply neutral_intro; reflexivity|].
+      eapply I_pd with (q := q); try assumption; [split; [exact HP | split; [exact HLk | exact HD]] | intros _; exact Hpm | exists vs; auto].
+    + unfold RE_Inv.tentry. cbv zeta. rewrite Hpc, Hmc. simp_st. rewrite Hpm. reflexivity.
+Qed.
+
+(* the task is scheduled for the first time *)
+Lemma step_task_ns (s : st) os q :
+  Core q s os -> state s = Idle -> (pc s = PcNotStarted \/ pc s = PcPermit0) -> must_cancel s = false ->
+  p_infl q = [] -> RespsOK (S (List.length (p_fl q))) s -> (pc s = PcPermit0 -> permit s = true) ->
+  StepOK s os (task_step s).
+Proof.
+  intros (HP & HLk & HD) Hst Hpc Hmc Hin (vs & Hrs & Hlen) Hg.
+  pose proof HLk as (L1 & L2 & L3 & L4 & L5 & L6 & L7 & L8 & L9 & L10).
+  unfold StepOK. destruct (permit s) eqn:Hpm.
+  - rewrite (task_start P presume plan_of D dev s Hpc Hmc Hpm Hst)
+      by (rewrite Hrs, L2, map_length, app_length, map_length; cbn; lia).
+    cbn [fst snd]. intros _. apply Inv_neutral; [apply neutral_intro; reflexivity|].
+    eapply I_rs with (q := q); simp_st; try congruence.
+    + split; [exact HP|]. split; [|exact HD]. unfold Link in *. simp_st. repeat split; assumption.
+    + exists vs. split; [simp_st; exact Hrs | exact Hlen].
+  - destruct Hpc as [Hpc | Hpc]; [|specialize (Hg Hpc); discriminate Hg].
+    rewrite (task_step_inr s (RE.set_pc P D (RE.set_must_cancel P D s false) PcPermit0, [OTask WFuture])).
+    + cbn [fst snd]. intros _. apply Inv_neutral; [apply neutral_intro; reflexivity|].
+      eapply I_ns with (q := q); simp_st; try congruence.
+      * split; [exact HP|]. split; [|exact HD]. eapply Link_nsame; [nsame_tac | reflexivity | exact HLk].
+      * right. reflexivity.
+      * exists vs. split; [simp_st; exact Hrs | exact Hlen].
+    + unfold RE_Inv.tentry. cbv zeta. rewrite Hpc, Hmc. simp_st. rewrite Hpm. reflexivity.
+Qed.
+
+(* the end of the task *)
+Lemma DocsAll_ext os o : final_events o = [] -> stops o = [] -> no_raise o = true -> DocsAll os -> DocsAll (os ++ o).
+Proof.
+  intros N1 N2 N3 (D1 & D2 & D3 & D4). unfold DocsAll.
+  rewrite final_events_app, stops_app, no_raise_app, N1, N2, N3, D4, !app_nil_r. auto.
+Qed.
+
+Lemma step_task_final (s : st) os :
+  FinCore s os -> (state s = Running /\ must_cancel s = false \/ state s = Pausing /\ must_cancel s = true) ->
+  pc s = PcFinalSleep (TReturn rv) ->
+  StepOK s os (task_step s).
+Proof.
+  intros (F1 & F2 & F3 & F4 & F5) Hcase Hpc. unfold StepOK.
+  destruct Hcase as [(Hst & Hmc) | (Hst & Hmc)].
+  - edestruct finalize_done with (s := RE.set_must_cancel P D s false) (r := TReturn rv) (pend := @None exn) as (s' & o & E & E1 & E2 & E3 & E4 & E5 & E6);
+      simp_st; try assumption; [rewrite Hst; apply allowed_running_idle|].
+    rewrite (task_step_inr s (s', o)) by (unfold RE_Inv.tentry; cbv zeta; rewrite Hpc, Hmc; rewrite E; reflexivity).
+    cbn [fst snd]. intros _. eapply I_done with (r := TReturn rv); try assumption; try reflexivity.
+    + apply DocsAll_ext; assumption.
+    + simp_st. congruence.
+  - edestruct finalize_done with (s := RE.set_must_cancel P D s false) (r := TReturn rv) (pend := Some ECancelled) as (s' & o & E & E1 & E2 & E3 & E4 & E5 & E6);
+      simp_st; try assumption; [rewrite Hst; apply allowed_pausing_idle|].
+    rewrite (task_step_inr s (s', o)) by (unfold RE_Inv.tentry; cbv zeta; rewrite Hpc, Hmc; rewrite E; reflexivity).
+    cbn [fst snd]. intros _. eapply I_done with (r := TRaise ECancelled); try assumption; try reflexivity.
+    + apply DocsAll_ext; assumption.
+    + simp_st. congruence.
+Qed.
+
+Lemma step_task_done (s : st) os r :
+  DocsAll os -> state s = Idle -> pc s = PcDone r -> res_ok r = true -> main_err s = None ->
+  StepOK s os (task_step s).
+Proof.
+  intros HD Hst Hpc Hr Hme. unfold StepOK.
+  rewrite (task_step_inr s (s, [OBad 3])) by (unfold RE_Inv.tentry; cbv zeta; rewrite Hpc; reflexivity).
+  cbn [fst snd]. intros _. eapply I_done; try eassumption. apply DocsAll_ext; try reflexivity. exact HD.
+Qed.
+
 End D.
